@@ -237,4 +237,16 @@ def rotateBlock (rotNum : Int) (b : Block) : Block :=
     boundary := b.boundary.map (rotBoundary rotNum)
     disp := b.disp.map (rotXY rotNum.toNat) }
 
+/-- `Assembly.rotate(rad)`: `for b in self: b.rotate(rad)` -/
+def rotateAssembly (rotNum : Int) (blocks : List Block) : List Block := blocks.map (rotateBlock rotNum)
+
+/-- the guard of `HexAssembly.rotate`: `remainder = rad % (math.pi / 3)` (a parameter: float modulo) is accepted
+when `min(remainder, math.pi / 3 - remainder) <= 1e-12` -/
+def hexAssemblyAccepts (third remainder tol : Rat) : Bool :=
+  decide (min remainder (third - remainder) ≤ tol)
+
+/-- `HexAssembly.rotate(rad)`; `none` = ValueError (nothing is rotated) -/
+def rotateHexAssembly (third remainder tol : Rat) (rotNum : Int) (blocks : List Block) : Option (List Block) :=
+  if hexAssemblyAccepts third remainder tol then some (rotateAssembly rotNum blocks) else none
+
 end ArmiVerif.Hex
